@@ -266,6 +266,51 @@ def run_files(spec, rec, lib):
         rec.count("keyfile_roundtrips")
         if not ok:
             viol(rec, "keyfiles/roundtrip-not-equivalent", "keys read back differ from keys written", case)
+        # history: the name has been loaded once; the key files are then replaced (rotation) by another route - written
+        # directly, generated again through another spelling of the path, or through a relative name from another working
+        # directory - and loaded again under the ORIGINAL name: what loads is what the files now hold
+        route = ["direct_write", "other_spelling", "relative_after_chdir", "same_name_again"][i % 4]
+        k2 = gkeys.key(20 + i % 10)
+        want = None
+        try:
+            if route == "direct_write":
+                with open(base + ".pri", "wb") as fh:
+                    fh.write(k2.seed)
+                with open(base + ".pub", "wb") as fh:
+                    fh.write(k2.pub)
+                want = (k2.seed, k2.pub)
+            elif route == "other_spelling":
+                o2 = boundary.call(lib, M.gen_and_write_keys, os.path.join(os.path.dirname(base), ".", os.path.basename(base)))
+                want = (C.PrivateKey.to_bytes(o2.value[0]), C.PublicKey.to_bytes(o2.value[1])) if o2.accepted else None
+            elif route == "relative_after_chdir":
+                cwd = os.getcwd()
+                os.chdir(os.path.dirname(base))
+                try:
+                    o2 = boundary.call(lib, M.gen_and_write_keys, os.path.basename(base))
+                    rel = boundary.call(lib, C.keyfiles_to_bytes, os.path.basename(base))
+                finally:
+                    os.chdir(cwd)
+                want = (C.PrivateKey.to_bytes(o2.value[0]), C.PublicKey.to_bytes(o2.value[1])) if o2.accepted else None
+                if want and (not rel.accepted or tuple(rel.value) != want):
+                    viol(rec, "keyfiles/stale-after-rotation/relative-name", "relative name loads other keys than were just written under it", case)
+            else:
+                o2 = boundary.call(lib, M.gen_and_write_keys, base)
+                want = (C.PrivateKey.to_bytes(o2.value[0]), C.PublicKey.to_bytes(o2.value[1])) if o2.accepted else None
+        except OSError:
+            want = None
+        if want is not None:
+            rec.count("keyfile_rotations")
+            rec.hist("rotation_route", route)
+            ob = boundary.call(lib, C.keyfiles_to_bytes, base)
+            ok2 = boundary.call(lib, C.keyfiles_to_keys, base)
+            if not ob.accepted or tuple(ob.value) != want:
+                viol(rec, "keyfiles/stale-after-rotation/keyfiles_to_bytes/" + route,
+                     "after the key files were replaced (%s), the name still loads the earlier key material" % route, case)
+            elif not ok2.accepted or C.PrivateKey.to_bytes(ok2.value[0]) != want[0] or C.PublicKey.to_bytes(ok2.value[1]) != want[1]:
+                viol(rec, "keyfiles/stale-after-rotation/keyfiles_to_keys/" + route,
+                     "after the key files were replaced (%s), the name still loads the earlier keys" % route, case)
+            priv = C.PrivateKey.from_bytes(want[0])
+            pb = want[0]
         # the files are named exactly <name>.pri / <name>.pub, and an earlier pair written under another name is still its own
         if not (os.path.exists(base + ".pri") and os.path.exists(base + ".pub")):
             viol(rec, "keyfiles/not-written-under-name-dot-pri-pub", "key files are not at <name>.pri / <name>.pub", case)
